@@ -794,6 +794,28 @@ func c09Crafted(rng *core.RNG) []c09Blob {
 			}
 		}
 	}
+	// very many tags of one byte each, all different, none overlapping (work per tag must not grow
+	// with the number of tags)
+	for _, nt := range []int{150000, 300000} {
+		var tags []imggen.ICCTag
+		for i := 0; i < nt; i++ {
+			tags = append(tags, imggen.ICCTag{Sig: string([]byte{byte('A' + i%26), byte('a' + (i/26)%26), byte('0' + (i/676)%10), byte(33 + (i/6760)%90)}), Data: []byte{byte(i)}})
+		}
+		tags = append(tags, imggen.ICCTag{Sig: "desc", Data: imggen.TextDescription("many small tags")})
+		prof, _ := imggen.ICCSpec{Header: imggen.MinimalHeader(false), Tags: tags}.Build()
+		add("icc", "ICC", prof, fmt.Sprintf("many-small-tags: %d tags of one byte each (%d input bytes)", nt, len(prof)))
+	}
+	// a profile that is itself a zlib stream of a zlib stream of zeros: the embedded bytes are whatever
+	// one inflation yields, and nothing in them is to be inflated again
+	for _, n := range []int{16 << 20, 128 << 20} {
+		inner := imggen.Deflate(make([]byte, n), 9)
+		mid := imggen.Deflate(inner, 9)
+		sp := imggen.PNGSpec{W: 5, H: 7, Depth: 8, ColorType: 2, ICC: &imggen.PNGICC{Name: "n", Profile: mid, Level: 9}, IDAT: []byte{1}}
+		b, _ := sp.Build()
+		add("load", "PNG", b, fmt.Sprintf("nested-deflate: the profile is a %d-byte zlib stream of a %d-byte zlib stream of %d zeros, in a %d-byte PNG", len(mid), len(inner), n, len(b)))
+		wb, _ := imggen.WebPSpec{Kind: "VP8X", W: 5, H: 7, ICC: mid, Payload: []byte{1, 2, 3}}.Build()
+		add("load", "WebP", wb, fmt.Sprintf("nested-deflate: the same %d-byte profile in a WebP", len(mid)))
+	}
 	// an iCCP stream that is not zlib at all (bad header), short and long: whatever machinery
 	// feeds the decompressor must not wait for a reader that has given up
 	for _, n := range []int{40, 5000, 70000, 1 << 20} {
